@@ -533,6 +533,10 @@ def _expected_equal(m1, m2):
         return None
     if _counting_differs(m1, m2):
         return False
+    if model.signature(m1) != model.signature(m2):
+        # the (element, neighbour elements) multisets of every side are
+        # invariant under any structure-preserving bijection (any size)
+        return False
     if brute.applicable(m1, m2):
         exp = brute.full_equal(m1, m2)
         if exp and m1.is_reaction and (_atom_marks(m1) or _atom_marks(m2)):
@@ -857,7 +861,20 @@ def probe_mutant(w, op):
         return
     if op.get("prelude") and m.is_stereo:
         _unspecified_prelude(w, g2)
+    n0 = len(w.violations) + len(w.known_hits)
     compare_pair(w, sl.real, m, g2, m2r, "mutant:" + kind)
+    if op.get("grouped") and n0 == len(w.violations) + len(w.known_hits):
+        # both read from files that list the atoms element by element, with
+        # the identifiers kept: same identifiers, same bonds, same sequence of
+        # elements in insertion order - different molecules
+        try:
+            f1 = R.guarded(R.build, m, "element", None, budget=30)
+            f2 = R.guarded(R.build, m2, "element", None, budget=30)
+        except Exception:  # noqa: BLE001
+            return
+        if _built_ok(w, f1, m, "probe_mutant") and _built_ok(w, f2, m2, "probe_mutant"):
+            w.stats["mutant:grouped-by-element"] += 1
+            compare_pair(w, f1, m, f2, m2, "mutant-grouped:" + kind)
     w.coherent(op["s"], {"C09"}, "probe_mutant", what="after-query")
 
 
@@ -1146,6 +1163,7 @@ def enum_open(w, op):
             o1 = sorted(l1, reverse=bool(op.get("stereo")))
             o2 = sorted(l2, reverse=not bool(op.get("changes")))
             kw["atom_labels"] = ({a: l1[a] for a in o1}, {a: l2[a] for a in o2})
+        gs.data["label_dicts"] = kw.get("atom_labels")
         gs.real = R.vf2pp_all_isomorphisms(a.real, b.real, **kw)
         gs.data["cls"] = _cls(a) + "/" + _cls(b)
     w.slots[dst] = gs
@@ -1344,6 +1362,21 @@ def gen_close(w, op):
         if gs.data["kind"] == "enum":
             _enum_check_prefix(w, gs, final=False)
             w.stats["enum_cancelled_checked"] += 1
+        if how == "labels" and gs.data.get("label_dicts"):
+            # the consumer edits its own label dictionary while the enumeration
+            # is suspended and advances it once more: whatever that enumeration
+            # does now is its own business (nothing is judged), but it must not
+            # leave anything behind for the enumerations that follow
+            w.stats["fault:F3:edit-label-dict"] += 1
+            l1, l2 = gs.data["label_dicts"]
+            tgt = l2 if len(gs.data["yielded"]) % 2 else l1
+            if tgt:
+                del tgt[sorted(tgt, key=repr)[len(gs.data["yielded"]) % len(tgt)]]
+            try:
+                w.R.guarded(next, gs.real)
+            except BaseException as e:  # noqa: BLE001
+                if isinstance(e, (KeyboardInterrupt, SystemExit)):
+                    raise
     _finish(w, gs)
     w.slots.pop(op["g"], None)
 
